@@ -441,10 +441,6 @@ _UNINIT = re.compile(r"\bfor\s+array\s")
 def _load_pair(what, real_f, spec_f, arg, root=None, note=""):
     """run one load on both sides; returns (failure or None, spec program or None, real program or None)"""
     (rp, re_), (sp, se) = _outcome(real_f, arg), _outcome(spec_f, arg)
-    if re_ is not None and se is not None and type(re_) is type(se) and "must be array" in str(re_) and "must be array" in str(se):
-        # `for array x in ...` (grammatical: `array` is a vartype): code and spec alike convert with PYTHON_TYPES["array"](v) = np.ndarray(v), an
-        # array of UNINITIALISED memory; which value is refused first depends on what the allocator hands out.  Out of the comparison's domain.
-        return None, None, None
     r = _cmp_outcomes(what, rp, re_, sp, se, root)
     if isinstance(r, dict):
         r["actual"] = (r["actual"] + note)[:2400]
